@@ -12,6 +12,7 @@
 #include <map>
 #include <set>
 #include <sys/stat.h>
+#include <unistd.h>
 #include <assemble.h>
 #include <gain.h>
 #include <sensors.h>
@@ -299,11 +300,15 @@ int main(int argc,char** argv) {
         if (cmd=="gains" || cmd=="ops") {
             std::string dir, what; ls >> dir >> what;
             std::string res;
+            // watchdog: a case that hangs (e.g. the random-probe loop of is_mesh_orientations_coherent when every solid
+            // angle is zeroed) kills the process; the runner attributes the crash to this case and restarts
+            alarm(getenv("H_C02_ALARM") ? atoi(getenv("H_C02_ALARM")) : 60);
             {
                 Silence s;
                 try { res = run_model(dir,what,cmd=="ops"); }
                 catch (...) { res = "crash 3 0 0"; }
             }
+            alarm(0);
             res += '\n';
             fwrite(res.data(),1,res.size(),stdout);
         } else if (cmd=="k") {
